@@ -91,7 +91,9 @@ class CompiledValue(Value):
         return self.access_handle.get_qualified_names()
 
     def py__bool__(self):
-        return self.access_handle.py__bool__()
+        return self.access_handle.py__bool__(
+            safe=not self.inference_state.allow_unsafe_executions
+        )
 
     def is_class(self):
         return self.access_handle.is_class()
@@ -185,7 +187,8 @@ class CompiledValue(Value):
         )
 
     def py__iter__(self, contextualized_node=None):
-        if not self.access_handle.has_iter():
+        if not self.access_handle.has_iter(
+                safe=not self.inference_state.allow_unsafe_executions):
             yield from super().py__iter__(contextualized_node)
 
         access_path_list = self.access_handle.py__iter__list()
